@@ -20,8 +20,10 @@ PROPERTY = "C13"
 SHRINK_LISTS = ()
 
 PLACEMENTS = ("none", "error_handler", "format_exceptions", "render_context", "include_handler",
-              "error_handler_false", "include_handler_false")
-SAMPLED_PLACEMENTS = {"error_handler_false": 12, "include_handler_false": 12}  # handlers declining: a sample of the raise points
+              "error_handler_false", "include_handler_false", "none_base", "error_handler_false_base", "error_handler_base")
+# handlers declining, and raises that are not an Exception (SystemExit-like): a sample of the raise points
+SAMPLED_PLACEMENTS = {"error_handler_false": 12, "include_handler_false": 12, "none_base": 6, "error_handler_false_base": 8,
+                      "error_handler_base": 6}
 IMPORT = "<%! from vsim.c13rt import p, S, flt, dec, it, Boom %>"
 
 RULE = ("one case = one generated template program (top-level defs that are plain / buffered / filtered / cached / decorated / "
@@ -113,6 +115,8 @@ class Gen:
                                                           False, False, allow_self=allow_self, nmax=3, ccall_ok=False)})
                 else:
                     out.append({"t": "call", "d": d["name"], "via": "ns", "arg": self.cid() if d.get("arg") else None})
+            elif x < 0.05:
+                out.append({"t": "callerflag"})
             elif x < 0.16:
                 out.append({"t": "text", "s": r.choice("abcdefgh") + str(r.randint(0, 9))})
             elif x < 0.34:
@@ -252,6 +256,8 @@ def emit_node(n):
         return "i${loop.index}"
     if t == "callerbody":
         return "${caller.body()}"
+    if t == "callerflag":
+        return "${'C1' if caller else 'C0'}"
     if t == "textf":
         return '<%%text filter="flt(%d)">%s</%%text>' % (n["i"], n["s"])
     if t == "for":
@@ -401,7 +407,7 @@ class Harness:
         kw = {"cache_impl": self.prog["cache_impl"]}
         if self.prog["cache_impl"] == "beaker":
             kw["cache_args"] = {"type": "memory"}
-        if placement == "error_handler":
+        if placement in ("error_handler", "error_handler_base"):
             def handler(context, error):
                 context.write("[EH]")
                 return True
@@ -410,7 +416,7 @@ class Harness:
             kw["format_exceptions"] = True
         elif placement == "include_handler":
             kw["include_error_handler"] = lambda context, error: True
-        elif placement == "error_handler_false":
+        elif placement in ("error_handler_false", "error_handler_false_base"):
             kw["error_handler"] = lambda context, error: False
         elif placement == "include_handler_false":
             kw["include_error_handler"] = lambda context, error: None
@@ -480,7 +486,7 @@ class Harness:
             try:
                 out["text"] = t.render()
                 out["status"] = "ok"
-            except Exception as e:
+            except (Exception, c13rt.BoomBase) as e:
                 out["status"] = "raised"
                 out["exc"] = e
         out["raised_obj"] = c13rt.ST.raised if placement != "render_context" else out.get("exc")
@@ -556,7 +562,8 @@ class Harness:
 
     def check_fault(self, pl, fault, fault_free):
         prog = self.prog
-        self.current = {"placement": pl, "fault": list(fault)}
+        fault = tuple(fault[:2]) + (("base",) if pl.endswith("_base") else ())
+        self.current = {"placement": pl, "fault": list(fault[:2])}
         m = Interp(prog, fault=fault, include_handler=(pl == "include_handler"))
         mr = m.render()
         real = self.real_render(pl, fault)
@@ -580,17 +587,18 @@ class Harness:
                           % (fdesc, repr(real["text"]) if real["status"] == "ok" else "raised %r" % real.get("exc"), want), label)
         else:
             boom, partial = mr[1], mr[2]
-            if where == "top" and pl in ("error_handler", "format_exceptions"):
+            if where == "top" and pl in ("error_handler", "format_exceptions", "error_handler_base"):
                 # the inherited template could not be located: raised while the inheritance chain is set up,
                 # before any template code runs; the property's handler clauses speak of raise points of a render
                 pass
-            elif pl in ("none", "include_handler", "error_handler_false", "include_handler_false"):
-                if real["status"] != "raised" or real["exc"] is not c13rt_raised(real):
+            elif pl in ("none", "include_handler", "error_handler_false", "include_handler_false", "none_base", "error_handler_false_base"):
+                if real["status"] != "raised" or real["exc"] is not c13rt_raised(real) or (
+                        pl.endswith("_base") and getattr(real["exc"], "code", None) != 7):
                     self.flag("exception-identity", "%s: expected the original exception object to propagate, got %s"
                               % (fdesc, ("text %r" % real["text"]) if real["status"] == "ok" else repr(real.get("exc"))), label)
                 else:
                     self.probe("unhandled:identity-checked")
-            elif pl == "error_handler":
+            elif pl in ("error_handler", "error_handler_base"):
                 self.probe("handled:error_handler")
                 want = partial + "[EH]"
                 if real["status"] != "ok" or real["text"] != want:
@@ -600,7 +608,7 @@ class Harness:
             elif pl == "format_exceptions":
                 if isinstance(real.get("text"), bytes):
                     real["text"] = real["text"].decode("utf-8", "replace")
-                if real["status"] != "ok" or "Boom" not in real["text"] or ("boom(%s,%d)" % tuple(fault)) not in real["text"]:
+                if real["status"] != "ok" or "Boom" not in real["text"] or ("boom(%s,%d)" % tuple(fault[:2])) not in real["text"]:
                     self.flag("exception-identity", "%s: format_exceptions should return an error page naming the exception, got %s"
                               % (fdesc, (repr(real["text"][:80])) if real["status"] == "ok" else "raised %r" % real.get("exc")), label)
                 else:
